@@ -312,6 +312,17 @@ func (w *world) judgeSession(op Op, o *obsT, info *stepInfo) *viol {
 			return v
 		}
 		cur.data[op.K] = op.V
+	case "saveregen":
+		cur.data[op.K] = op.V
+		if v := newID("regenerate"); v != nil {
+			return v
+		}
+	case "regendestroy":
+		if v := newID("regenerate"); v != nil {
+			return v
+		}
+		m.kill(cur.id, "destroy")
+		destroyed = true
 	case "reset":
 		if v := newID("reset"); v != nil {
 			return v
